@@ -437,6 +437,20 @@ pub fn gen_session(seed: u64, index: u64, c: &Corpus) -> Session {
     }
     r.shuffle(&mut reqs);
     reqs.truncate(len.max(probes.len() * 2));
+    // twins: an item and its near-copy (same derive, name and arity; other variant / field names, types,
+    // order) served back to back on one worker, in either order
+    for _ in 0..r.below(4) {
+        let base = r.below(fault_lo.max(1));
+        if let Some(t) = workload::twin(&keys[base].clone(), &mut r) {
+            keys.push(t);
+            let tk = keys.len() - 1;
+            let w = r.below(workers);
+            let at = r.below(reqs.len() + 1);
+            let (a, b) = if r.chance(1, 2) { (base, tk) } else { (tk, base) };
+            reqs.insert(at, Request { w, k: b, mode: Mode::Catch });
+            reqs.insert(at, Request { w, k: a, mode: Mode::Catch });
+        }
+    }
     // aftershocks: right after a fault request, ask for a healthy expansion of the same derive
     // (state left behind by a failed expansion is most likely to hit its own kind)
     let mut i = 0;
